@@ -187,8 +187,26 @@ func (f *vFsm) observe() vM {
 			}
 			members = append(members, vM{"id": m, "streams": vSorted(mm[m]), "asg": asg})
 		}
+		// who the group keeps as subscriber of each stream (what the next rebalance hands partitions to): it has to
+		// be the members that subscribe to it -- anything else lives in this server's memory only
+		subs := []vM{}
+		var sstreams []string
+		for s := range g.subscribers {
+			sstreams = append(sstreams, s)
+		}
+		sort.Strings(sstreams)
+		for _, s := range sstreams {
+			var ids []string
+			for _, cons := range *g.subscribers[s] {
+				ids = append(ids, cons.id)
+			}
+			sort.Strings(ids)
+			if len(ids) > 0 {
+				subs = append(subs, vM{"s": s, "cs": ids})
+			}
+		}
 		g.mu.RUnlock()
-		groups = append(groups, vM{"id": g.GetID(), "coord": coord, "epoch": ep, "members": members})
+		groups = append(groups, vM{"id": g.GetID(), "coord": coord, "epoch": ep, "members": members, "subs": subs})
 	}
 	disk := []string{}
 	if ents, err := os.ReadDir(filepath.Join(f.dir, "streams")); err == nil {
